@@ -139,4 +139,46 @@ def sweep(ctx, n):
             if not np.array_equal(np.asarray(res), np.asarray(res2), equal_nan=True):
                 fails.append({"key": f"second-call-differs:{fault}", "desc": "calling again returned a different result",
                               "replay": {"fault": fault, "field": field}})
-    return fails, {"c08_calls": done, "c08_fault_kinds": kinds}
+    # caller-owned arrays through the functional interface and the core functions (float64 ndarrays, stacks of n >= 2)
+    from oracles.sources import params
+    n_dict = 0
+    for i in range(max(10, n // 3)):
+        nps = np.random.default_rng(rng.randrange(2**31))
+        cls = CLASSES[i % len(CLASSES)]
+        k = rng.choice([2, 3])
+        arrays = {}
+        for _ in range(k):
+            for a, v in params(cls, nps).items():
+                if a == "faces":
+                    continue
+                arrays.setdefault(a, []).append(np.asarray(v, float))
+        if cls == "TriangularMesh":
+            import magpylib as _m
+            meshes = [_m.magnet.TriangularMesh(**params(cls, nps)).mesh.copy() for _ in range(k)]
+            arrays = {"mesh": meshes, "polarization": arrays["polarization"]}
+        if cls == "Tetrahedron":  # make some of them left-handed
+            for vtx in arrays["vertices"]:
+                if rng.random() < 0.7:
+                    vtx[[2, 3]] = vtx[[3, 2]]
+        try:
+            stacked = {a: np.array(v, dtype=float) for a, v in arrays.items()}
+        except ValueError:
+            continue
+        obs = far_points(nps, k, lo=4, hi=8)
+        pos = nps.uniform(-1, 1, (k, 3))
+        callers = {**stacked, "observers": obs, "position": pos}
+        hashes = {a: v.tobytes() for a, v in callers.items()}
+        field = rng.choice(["B", "H", "J", "M"])
+        try:
+            import warnings
+            with warnings.catch_warnings():
+                warnings.simplefilter("ignore")
+                getattr(magpy, "get" + field)(cls, obs, position=pos, **stacked)
+        except Exception as e:  # noqa
+            kinds[f"dict:{cls}:{type(e).__name__}"] = kinds.get(f"dict:{cls}:{type(e).__name__}", 0) + 1
+        n_dict += 1
+        changed = [a for a, v in callers.items() if v.tobytes() != hashes[a]]
+        if changed:
+            fails.append({"key": f"caller-array-mutated:{cls}:{changed[0]}", "desc": f"get{field}('{cls}', ...) modified the caller's array(s) {changed}",
+                          "replay": {"class": cls, "field": field, "changed": changed, "n": k}})
+    return fails, {"c08_calls": done, "c08_dict_interface_calls": n_dict, "c08_fault_kinds": kinds}
